@@ -271,6 +271,79 @@ Theorem C08_maurer_response_unique :
 Proof. exact maurer_response_unique_b. Qed.
 Print Assumptions C08_maurer_response_unique.
 
+(* ---------------- Fischlin and randomised Fischlin ---------------- *)
+
+(* Full statement wanted (as for Fiat–Shamir): "a proof accepted in context c is rejected in
+   every context / for every statement / after every component change".  For these two
+   compilers acceptance depends on hash-target tests of oracle outputs, so rejection in
+   another context holds only with overwhelming probability over the oracle, which is not
+   a property of a fixed function H.  Proved part (hence _partial): the exact acceptance
+   condition, the structural rejections, and that the key / CRS all hash queries are chained
+   from is an extraction of the session transcript that determines the whole context. *)
+Theorem C08_fischlin_accept_iff_partial :
+  forall (xof : xof_call -> bytes) (H : bytes -> bytes) c pname stmt rho b t len reps sv,
+  fischlin_accept xof H c pname stmt rho b t len reps sv = true <->
+  N.of_nat (length reps) = rho /\
+  exists call, fi_key_call c pname stmt rho = Some call /\
+    let commonH := H (xof call ++ stmt ++ flat_map (fun r => fst (fst r)) reps ++ c_sid c) in
+    forall j a e z, nth_error reps j = Some (a, e, z) ->
+      length e = N.to_nat ((t + 7) / 8) /\
+      fi_target b (H (fi_rep_input commonH (N.of_nat j) e z)) = true /\
+      (length e <= len)%nat /\ sv (N.of_nat j) (pad_left len e) = true.
+Proof. exact fischlin_accept_iff. Qed.
+Print Assumptions C08_fischlin_accept_iff_partial.
+
+Theorem C08_fischlin_wrong_count :
+  forall (xof : xof_call -> bytes) (H : bytes -> bytes) c pname stmt rho b t len reps sv,
+  N.of_nat (length reps) <> rho -> fischlin_accept xof H c pname stmt rho b t len reps sv = false.
+Proof. exact fischlin_wrong_count. Qed.
+Print Assumptions C08_fischlin_wrong_count.
+
+Theorem C08_fischlin_key_binds_context_partial :
+  forall c1 p1 s1 rho1 c2 p2 s2 rho2 k,
+  fi_valid c1 p1 s1 -> fi_valid c2 p2 s2 -> (rho1 < 2^64)%N -> (rho2 < 2^64)%N ->
+  fi_key_call c1 p1 s1 rho1 = Some k -> fi_key_call c2 p2 s2 rho2 = Some k ->
+  c_name c1 = c_name c2 /\ c_hist c1 = c_hist c2 /\
+  fi_dst (c_sid c1) p1 = fi_dst (c_sid c2) p2 /\ rho1 = rho2 /\ s1 = s2.
+Proof. exact fischlin_key_call_inj. Qed.
+Print Assumptions C08_fischlin_key_binds_context_partial.
+
+Theorem C08_fischlin_other_context_other_key_partial :
+  forall (xof : xof_call -> bytes) c1 p1 s1 c2 p2 s2 rho k1 k2,
+  (forall a b, xof a = xof b -> a = b) ->
+  fi_valid c1 p1 s1 -> fi_valid c2 p2 s2 -> (rho < 2^64)%N ->
+  fi_key_call c1 p1 s1 rho = Some k1 -> fi_key_call c2 p2 s2 rho = Some k2 ->
+  (c_hist c1 <> c_hist c2 \/ fi_dst (c_sid c1) p1 <> fi_dst (c_sid c2) p2 \/ s1 <> s2) ->
+  xof k1 <> xof k2.
+Proof. exact fischlin_other_context_other_key. Qed.
+Print Assumptions C08_fischlin_other_context_other_key_partial.
+
+Theorem C08_randfischlin_accept_iff_partial :
+  forall (xof : xof_call -> bytes) (H : bytes -> bytes) c pname reps sv,
+  randfischlin_accept xof H c pname reps sv = true <->
+  N.of_nat (length reps) = rf_R /\
+  exists call, rf_crs_call c pname = Some call /\
+    forall j a e z, nth_error reps j = Some (a, e, z) ->
+      forallb (fun x => N.eqb x 0)
+        (firstn rf_LBytes (H (rf_rep_input (xof call) (flat_map (fun r => fst (fst r)) reps) (N.of_nat j) e z))) = true /\
+      sv (N.of_nat j) e = true.
+Proof. exact randfischlin_accept_iff. Qed.
+Print Assumptions C08_randfischlin_accept_iff_partial.
+
+Theorem C08_randfischlin_wrong_count :
+  forall (xof : xof_call -> bytes) (H : bytes -> bytes) c pname reps sv,
+  N.of_nat (length reps) <> rf_R -> randfischlin_accept xof H c pname reps sv = false.
+Proof. exact randfischlin_wrong_count. Qed.
+Print Assumptions C08_randfischlin_wrong_count.
+
+Theorem C08_randfischlin_crs_binds_context_partial :
+  forall c1 p1 c2 p2 k,
+  rf_valid c1 p1 -> rf_valid c2 p2 -> wf_bytes (c_sid c1) -> wf_bytes (c_sid c2) ->
+  rf_crs_call c1 p1 = Some k -> rf_crs_call c2 p2 = Some k ->
+  c_name c1 = c_name c2 /\ c_hist c1 = c_hist c2 /\ c_sid c1 = c_sid c2 /\ p1 = p2.
+Proof. exact randfischlin_crs_call_inj. Qed.
+Print Assumptions C08_randfischlin_crs_binds_context_partial.
+
 (* ---------------- non-vacuity ---------------- *)
 
 (* the hypotheses of the sigma theorems hold for the integers with phi(w) = 15*w (anchor
